@@ -138,8 +138,25 @@ def le(a, b):
     return a <= b           # CPython comparison: False with NaN
 
 
-def prop_step(parms, pre, lapse, inp, rate, rsp, post, wrap2):
-    """the property's statement on one update of the implementation; returns why-string or None"""
+def contract_wrap2(d, w, e):
+    """the WRITTEN contract of the two-sided wrap (C43 theorems wrap2_range / wrap_whole_turns / wrap_zero_identity),
+    evaluated exactly: e is the wrap of difference d with half circle w.  Finite values only."""
+    if not all(isinstance(x, (int, float)) and math.isfinite(x) for x in (d, w, e)):
+        return None
+    d, w, e = Fraction(d), Fraction(w), Fraction(e)
+    if w == 0:
+        return None if e == d else "wrap 0 must leave the difference unchanged"
+    if abs(e) > abs(w):
+        return "magnitude %s exceeds the half circle %s" % (abs(e), abs(w))
+    if ((d - e) / (2 * w)).denominator != 1:
+        return "differs from the difference %s by %s full circles (not a whole number)" % (d, (d - e) / (2 * w))
+    return None
+
+
+def prop_step(parms, pre, lapse, inp, rate, rsp, post, wrap2, exact=False):
+    """the property's statement on one update of the implementation; returns why-string or None.
+    exact=True: the inputs are such that binary64 arithmetic inside wrap2 is exact, so the error is also
+    checked against the written wrap contract (not only against the implementation's own wrap2)"""
     if not (lapse <= 0.0):
         es, out = post[4], post[5]
         if le(parms["esmin"], parms["esmax"]) and not (le(parms["esmin"], es) and le(es, parms["esmax"])):
@@ -160,6 +177,11 @@ def prop_step(parms, pre, lapse, inp, rate, rsp, post, wrap2):
         e = post[2]
         if not (e == want or (e != e and want != want)):
             return "error %r is not wrap2(input - set point) = %r" % (e, want)
+        if exact:
+            c = contract_wrap2(inp - used, parms["wrap"], e)
+            if c:
+                return ("error %r for input %r, set point %r, wrap %r is not the shortest wrapped difference: %s"
+                        % (e, inp, used, parms["wrap"], c))
         w = parms["wrap"]
         if w != 0 and math.isfinite(w) and math.isfinite(inp - used) and not abs(e) <= abs(w):
             return "error %r not the shortest wrapped difference (|wrap| = %r)" % (e, abs(w))
@@ -297,6 +319,13 @@ def run(ctx):
             elif ctx.rng.random() < 0.2 and math.isfinite(hold_rsp):
                 hold_rsp = hold_rsp + ctx.rng.choice([0.375, -0.375])   # small move, around drsp
             inp = grid_value(ctx, nonfinite)
+            wr = parms["wrap"]
+            if abs(wr) >= 1.5 and math.isfinite(wr) and ctx.rng.random() < 0.15:   # (0.1875 would leave the exact grid)
+                # difference exactly on the half circle (or 3 half circles) from the set point that will be used
+                pr = rig.state()[1]
+                base = hold_rsp if abs(hold_rsp - pr) > parms["drsp"] else pr
+                if math.isfinite(base):
+                    inp = base + ctx.rng.choice([-3, -1, 1, 3]) * wr
             rate = ctx.rng.choice([0.0, 0.25, -0.5, 1.0, 4.0]) if not (nonfinite and ctx.rng.random() < 0.1) else NAN
             pre = rig.state()
             try:
@@ -306,7 +335,7 @@ def run(ctx):
                 viol.append({"parms": parms, "pre": pre, "input": inp, "rate": rate, "rsp": hold_rsp, "why": why})
                 ctx.tie_broken("correspondence", "ControllerPid.action raised", why)
                 break
-            why = prop_step(parms, pre, lapse, inp, rate, hold_rsp, post, nav.wrap2)
+            why = prop_step(parms, pre, lapse, inp, rate, hold_rsp, post, nav.wrap2, exact=True)
             if why:
                 viol.append({"parms": parms, "pre": pre, "lapse": lapse, "input": inp, "rate": rate,
                              "rsp": hold_rsp, "post": post, "why": why})
@@ -324,6 +353,37 @@ def run(ctx):
                 row += list(enc(v))
             rows.append(row)
             metas.append((parms, pre, [lapse, inp, rate, hold_rsp], post))
+
+    # half-turn pool (implementation alone): differences of exactly +-wrap, +-3 wrap, also for wraps that are not
+    # dyadic; (a) navigating.wrap2 against its written contract, (b) the controller error against the same contract
+    for wr in (180.0, 0.5, 3.0, math.pi, math.pi / 2, 1.1, -180.0, -math.pi):
+        for turns in (-3, -1, 1, 3):
+            ang = turns * wr
+            try:
+                got = nav.wrap2(ang, wr)
+                c = contract_wrap2(ang, wr, got)
+            except Exception as ex:
+                got, c = None, "%s: %s" % (type(ex).__name__, ex)
+            ctx.case({"wrap2": [ang.hex(), wr.hex()]}, nontrivial=True, kind="half-turn:wrap2")
+            if c:
+                viol.append({"function": "navigating.wrap2", "angle": ang, "wrap": wr, "observed": got,
+                             "why": "wrap2(%r, %r) = %r violates the wrap contract: %s" % (ang, wr, got, c)})
+            for sp in (0.0, 90.0):
+                inp = sp + ang
+                parms = dict(wrap=wr, drsp=0.01, calcRate=True, ger=1.0, gff=0.0, gpe=3.0, gde=0.0, gie=0.0,
+                             esmax=0.0, esmin=0.0, ovmax=20.0, ovmin=-20.0)
+                try:
+                    rig = Rig(parms, 700000 + len(viol) * 1000 + int(abs(turns)) * 100 + int(sp) + ctx.rng.randint(0, 10 ** 6))
+                    rig.step(None, inp, 0.0, sp)
+                    pre = rig.state()
+                    lapse, post = rig.step(0.125, inp, 0.0, sp)
+                    why = prop_step(parms, pre, lapse, inp, 0.0, sp, post, nav.wrap2, exact=True)
+                except Exception as ex:
+                    pre, lapse, post, why = None, None, None, "%s: %s" % (type(ex).__name__, ex)
+                ctx.case({"half-turn": [inp, sp, wr]}, nontrivial=True, kind="half-turn:controller")
+                if why:
+                    viol.append({"parms": parms, "pre": pre, "lapse": lapse, "input": inp, "setpoint": sp, "rsp": sp,
+                                 "wrap": wr, "rate": 0.0, "post": post, "why": why})
 
     # float pool: the statement on the implementation alone, arbitrary doubles
     def rf():
@@ -388,8 +448,9 @@ def run(ctx):
     def search():
         if not viol:
             return None
-        v = dict(viol[0])
-        v["contradicts"] = "C46.Props.es_and_output_clamped / error_is_wrap2 / integrator_reset"
+        v = dict(min(viol, key=lambda d: (0 if "setpoint" in d else 1 if "function" in d else 2)))
+        v["contradicts"] = ("C46.Props.es_and_output_clamped / error_is_wrap2 + error_wrap_is_shortest (C43 wrap2 contract) "
+                            "/ integrator_reset")
         v["key"] = "pid-limits"
         return v
 
